@@ -326,6 +326,42 @@ def same_runner_two_graphs(acc):
         acc.violation({"symptom": sym, "history": "one-runner-two-graphs"}, {"same_runner": True}, msg)
 
 
+def paused_with_selection(acc):
+    """'values computed before the pause are returned' whatever the selection policy: a pausing run with a run-time select naming
+    an output that cannot exist yet (downstream of the interrupt) and every on_missing mode still ends PAUSED, identifies the
+    interrupt, and returns the selected values computed so far."""
+    from hypergraph import AsyncRunner
+
+    from .. import seams
+    from ..vloop import VLoop
+
+    prog = T.prog([T.fn("pre", ["e0"], ["a0"]), T.interrupt("ask", ["a0"], ["ans"], behav="pause"), T.fn("post", ["ans"], ["b0"])])
+    ap = T.set_async(prog, True)
+    for s_ in ap["nodes"]:
+        if s_["kind"] == "interrupt":
+            s_.pop("async", None)
+    for sel in (["b0"], ["a0", "b0"], ["a0"], "**"):
+        for om in ("ignore", "warn", "error"):
+            h = H()
+            g = build(ap, h)
+            loop = VLoop()
+            h.loop = loop
+            w = {"paused_with_selection": True}
+            try:
+                with seams.use(h):
+                    res = loop.run_main(AsyncRunner().run(g, {"e0": ("prov", "e0")}, select=sel, on_missing=om), _Z())
+            except Exception as e:  # noqa: BLE001
+                acc.violation({"symptom": "pausing-run-raised", "on_missing": om}, w, f"pausing run with select={sel}, on_missing={om!r} raised {type(e).__name__}: {str(e)[:120]} instead of returning PAUSED")
+                continue
+            finally:
+                loop.close()
+            acc.evaluations += 1
+            acc.key(("paused-with-selection", repr(sel), om))
+            exp_keys = {"a0"} if sel == "**" or "a0" in sel else set()
+            if res.status.value != "paused" or res.pause is None or res.pause.node_name != "ask" or set(res.values) != exp_keys:
+                acc.violation({"symptom": "paused-result-with-selection", "on_missing": om}, w, f"pausing run with select={sel}, on_missing={om!r}: status {res.status.value}, pause {getattr(res.pause, 'node_name', None)!r}, values {sorted(res.values)} (expected PAUSED at 'ask' with values {sorted(exp_keys)})")
+
+
 def cached_interrupt_histories(acc, depth=3):
     """cache=True on the interrupt itself: EVERY sequence of <= depth calls (no response / response A / response B) on one
     runner with one cache, for a handler that always pauses and one that always answers, must give at every position the
@@ -435,6 +471,7 @@ def run_shard(shard):
         nested_check(acc)
         same_runner_two_graphs(acc)
         cached_interrupt_histories(acc, 3 if tier == "quick" else 4)
+        paused_with_selection(acc)
         return acc
     for ci, (family, prog, inputs) in enumerate(_cases(tier)):
         if ci % k != s:
@@ -465,6 +502,10 @@ def coverage_extra(acc, tier, seed):
 
 
 def replay(rep):
+    if rep.get("paused_with_selection"):
+        acc = Acc()
+        paused_with_selection(acc)
+        return [v["message"] for v in acc.violations.values()]
     if rep.get("cached_interrupt"):
         acc = Acc()
         cached_interrupt_histories(acc)
